@@ -104,6 +104,9 @@ def gen_table(rng, max_n=40, nsids=None, axes_p=(0.65, 0.5), index_kinds=None, n
     if n >= 2 and frac_p and rng.chance(frac_p):
         tbl["frac_ms"] = [rng.pick((0, 0, 250, 500, 750)) for _ in range(n)]  # sub-second sampling (exact in float64)
         tbl["no_files"] = True  # a float time axis in a file does not round-trip sub-second instants to the nanosecond
+    if n >= 1 and frac_p and rng.chance(frac_p / 2):
+        tbl["frac_ns"] = [rng.randint(0, 999) for _ in range(n)]  # nanosecond-resolution clock
+        tbl["no_files"] = True
     if n >= 2 and nat_p and rng.chance(nat_p):
         tbl["nat"] = sorted(rng.sample(range(n), rng.randint(1, min(2, n - 1))))  # a record without a clock value
         if tbl["index"]["kind"] == "datetime":
@@ -561,9 +564,22 @@ def gen_config(rng, tbl, max_ctx=4, max_tests=3, window_layout=None, fault_kinds
                 contexts.insert(rng.randint(0, len(contexts)), {"window": w, "entries": dead, "dead": True})
                 break
     carrier = rng.pick(CARRIERS)
+    wform = rng.pick(WINDOW_FORMS) if carrier in ("dict", "odict") else "iso"
+    if tbl.get("frac_ns") and carrier in ("dict", "odict", "json", "json_path") and wform != "datetime":
+        # nanosecond-resolution records: window bounds may carry nanoseconds too (spellings that can hold them)
+        ns_of = {}  # one sub-second part per bound instant, so that adjacent windows stay adjacent
+        for c in contexts:
+            w = c.get("window")
+            if w:
+                for b in ("starting", "ending"):
+                    if w.get(b) is not None:
+                        if w[b] not in ns_of:
+                            ns_of[w[b]] = rng.randint(1, 999) if rng.chance(0.6) else 0
+                        if ns_of[w[b]]:
+                            w[b + "_ns"] = ns_of[w[b]]
     return {
         "contexts": contexts,
-        "window_form": rng.pick(WINDOW_FORMS) if carrier in ("dict", "odict") else "iso",
+        "window_form": wform,
         "carrier": carrier,
         "layout": "streams" if len(contexts) == 1 and rng.chance(0.4) else "contexts",
         "share_document": rng.chance(0.3),
